@@ -59,7 +59,14 @@ Theorem rescan_restart : forall x,
 Proof.
   intros x. rewrite <- (rescan_file x). apply sess_inv_start_gen.
 Qed.
+
+(** zck_clear_error between transfers changes neither file nor table: the session invariant, which
+    only speaks about those, is untouched *)
+Theorem clear_error_sess_inv : forall tab0 file0 x,
+  sess_inv H doff tab0 file0 x -> sess_inv H doff tab0 file0 (clear_error x).
+Proof. intros tab0 file0 x Hs. unfold sess_inv in *. cbn [clear_error x_dl d_tab d_file]. exact Hs. Qed.
 End R.
 
 Print Assumptions rescan_sound.
 Print Assumptions rescan_restart.
+Print Assumptions clear_error_sess_inv.
